@@ -270,6 +270,15 @@ def run_unit(u, scratch_root, tier, log_dir):
         cmd = cbmc_cmd(u, gb)
         r['checker_cmd'] = ' '.join(cmd)
         rc, out, err, dt, why = run(cmd, u.get('timeout', 600), mem_gb=u.get('mem_gb', 16), log=log)
+        if why and 'timeout' in why and u['route'] in ('stub', 'plain') and not u.get('unwind'):
+            # A loop-free function under contract that no longer terminates in symbolic execution has usually grown a loop.
+            # Retry with a small unwinding bound: real obligations that fail are reported; if only the unwinding
+            # assertions fail the unit stays undecided.
+            u = dict(u, unwind=16)
+            cmd = cbmc_cmd(u, gb)
+            r['checker_cmd'] = ' '.join(cmd)
+            r['retry'] = 'timeout without unwinding bound; retried with --unwind 16 --unwinding-assertions'
+            rc, out, err, dt, why = run(cmd, u.get('timeout', 600), mem_gb=u.get('mem_gb', 16), log=log)
         if why:
             r['reason'] = why
             return r
@@ -324,6 +333,10 @@ def run_unit(u, scratch_root, tier, log_dir):
             if 'undefined function should be unreachable' in f['description'] or 'no body for' in f['description']:
                 r['reason'] = 'unspecified callee: %s [%s / %s]' % (f['description'], f['property'], (f.get('location') or {}).get('function', '?'))
                 return r
+        if failed and all('unwinding assertion' in f['description'] for f in failed):
+            r['failed'] = []
+            r['reason'] = 'unwinding bound too small (only unwinding assertions fail): no verdict'
+            return r
         if failed:
             r['status'] = VIOLATED
             # second run with traces for the failed obligations
